@@ -224,7 +224,15 @@ impl<'p, 'd> Builder<'p, 'd> {
         let n_atoms = 1 + self.d.below(2);
         let mut branches = vec![];
         for _ in 0..n_ops {
-            let kind = if self.p.pratt_shared_ops && self.d.chance(1, 3) { 5 + self.d.below(2) } else { self.d.below(7) };
+            let kind = if (self.p.pratt_shared_ops || !self.p.repair) && self.d.chance(1, 8) {
+                // everything behind the left operand can be empty: always in conflict with what
+                // follows the rule (C10: the conflict must be reported)
+                7 + self.d.below(3)
+            } else if self.p.pratt_shared_ops && self.d.chance(1, 3) {
+                5 + self.d.below(2)
+            } else {
+                self.d.below(7)
+            };
             let n_toks = 1 + self.d.below(2);
             let mut toks = vec![];
             for _ in 0..n_toks {
@@ -261,6 +269,10 @@ impl<'p, 'd> Builder<'p, 'd> {
                     let c = self.closer()?;
                     vec![e.clone(), op, e.clone(), Regex::Tok(c, false), e.clone()]
                 }
+                7 => vec![e.clone(), Regex::Opt(Box::new(op))],
+                8 => vec![e.clone(), Regex::Star(Box::new(op))],
+                // the only element behind the left operand consumes nothing
+                9 => vec![e.clone(), Regex::Assert(1)],
                 // nullable operator position: the branch is selected by the predict set of `[op]`, i.e. by `op` or `c`
                 5 => {
                     let c = self.closer()?;
@@ -613,16 +625,28 @@ impl Deco<'_, '_, '_> {
             }
         }
         if p.nodeops {
+            // rename / elision: at the end of the list or, half of the time, somewhere inside
+            // it (what was visited before a later ordered choice or loop must survive it)
+            let place = |out: &mut Vec<Regex>, r: Regex, d: &mut Dice<'_>| {
+                if d.chance(1, 2) || out.len() < 2 {
+                    out.push(r);
+                } else {
+                    // never in front of a leading predicate
+                    let lo = if matches!(out.first(), Some(Regex::Pred(_))) { 2 } else { 1 };
+                    let pos = lo.min(out.len()) + d.below(out.len() + 1 - lo.min(out.len()));
+                    out.insert(pos, r);
+                }
+            };
             if (!self.is_start || p.c11_shapes) && self.b.d.chance(1, 7) {
                 let name = self.node_name();
                 if p.paren_deco && self.b.d.chance(1, 4) {
-                    out.push(Regex::Paren(Some(Box::new(Regex::Rename(name)))));
+                    place(&mut out, Regex::Paren(Some(Box::new(Regex::Rename(name)))), &mut self.b.d);
                 } else {
-                    out.push(Regex::Rename(name));
+                    place(&mut out, Regex::Rename(name), &mut self.b.d);
                 }
             }
             if self.allow_elide && !left_rec_branch && self.b.d.chance(1, 8) {
-                out.push(Regex::Elide);
+                place(&mut out, Regex::Elide, &mut self.b.d);
             }
             // an unindexed creation reaches back to the start of the rule: inside an open marker
             // range or an undoable attempt it would cross them (only generated on request)
